@@ -767,4 +767,37 @@ def getFiles (pinned : Bool) (server : List (Str × Str)) : FileSrv → List (St
   | _, [] => []
   | s, (p, d) :: r => (getFile pinned server s p d).1 :: getFiles pinned server (getFile pinned server s p d).2 r
 
+/-! ## Distrib._createDeps: the order of the dependency manifest -/
+
+/-- one element of `Eups.getDependentProducts(product, topological=True)` as `_createDeps` uses it: name, requested
+version, optional flag, recursion depth, and the version `findProductFromVRO` finds (`none`: not found) -/
+structure DepReq where
+  name : Str
+  version : Str
+  optional : Bool
+  depth : Nat
+  found : Option Str
+  deriving DecidableEq, Repr
+
+/-- stable insertion by decreasing depth (`dependencies.sort(key=lambda a: -a[2])`) -/
+def insertByDepth (x : DepReq) : List DepReq → List DepReq
+  | [] => [x]
+  | y :: r => if x.depth ≥ y.depth then x :: y :: r else y :: insertByDepth x r
+
+def sortByDepth (l : List DepReq) : List DepReq := l.foldr insertByDepth []
+
+/-- the loop over the sorted dependencies: a product that is found is listed with the version found, a missing
+optional one is skipped, a missing required one raises `ProductNotFound` (`none`) -/
+def listDeps : List DepReq → Option (List (Str × Str × Bool))
+  | [] => some []
+  | d :: r =>
+    match d.found with
+    | some v => (listDeps r).map fun l => (d.name, v, d.optional) :: l
+    | none => if d.optional then listDeps r else none
+
+/-- `_createDeps`: the top product is added first, the dependencies follow deepest first, and `roll()` takes the top
+product to the end: the manifest is in install order -/
+def createDepsOrder (top : Str × Str) (deps : List DepReq) : Option (List (Str × Str × Bool)) :=
+  (listDeps (sortByDepth deps)).map fun l => rollList 1 ((top.1, top.2, false) :: l)
+
 end EupsModel.Manifest
